@@ -800,6 +800,9 @@ class BaseConnector:
                             await trace.send_connection_reuseconn()
                         except BaseException:
                             self._release_acquired(key, proto)
+                            # It is in neither the pool nor anybody's hands
+                            # any more: nobody else would ever close it.
+                            proto.close()
                             raise
                 return Connection(self, key, proto, self._loop)
 
